@@ -341,9 +341,7 @@ DRV_OP(OpSdClear, "sd.clear") {
   return json::object();
 }
 
-DRV_OP(OpSdcPack, "sdc.pack") {
-  const auto type = drv::BuildType(a.at("type"));
-  const auto value = drv::BuildValue(a.at("spec"));
+static json PackOne(const StructuredData& value, const ccl::rslang::Typification& type) {
   json out = json::object();
   out["val0"] = Observe(value);      // what was built, observed before anything else traverses it
   out["typestr"] = type.ToString();
@@ -361,6 +359,30 @@ DRV_OP(OpSdcPack, "sdc.pack") {
   const auto back2 = compact.Unpack(type);
   out["back2_same"] = back2.has_value() == back.has_value() && (!back.has_value() || *back2 == *back);
   out["val"] = Observe(value);
+  return out;
+}
+
+DRV_OP(OpSdcPack, "sdc.pack") {
+  auto type = drv::BuildType(a.at("type"));
+  json out = PackOne(drv::BuildValue(a.at("spec")), type);
+  if (a.contains("then")) {
+    // further packs with the SAME typification object after it was changed in place
+    json more = json::array();
+    for (const auto& step : a.at("then")) {
+      if (step.contains("subst")) {
+        ccl::rslang::Typification::Substitutes substitutes{};
+        const json substSpec = step.at("subst");
+        for (auto it = substSpec.begin(); it != substSpec.end(); ++it) {
+          substitutes.insert({ it.key(), drv::BuildType(it.value()) });
+        }
+        type.SubstituteBase(substitutes);
+      } else if (step.contains("assign")) {
+        type = drv::BuildType(step.at("assign"));
+      }
+      more.push_back(PackOne(drv::BuildValue(step.at("spec")), type));
+    }
+    out["more"] = more;
+  }
   return out;
 }
 
